@@ -221,12 +221,12 @@ def run(prop: str, tier: str, seed: int) -> int:
         "samples": [{"sequence": ["Constant", "Variable", "Exponent", "Constant"], "text": "4x^2", "result": "Multiply(c0, Power(v1, c3)) = grammar tree"}],
         "bounded": {k: v for k, v in extra.items() if k != "failures"},
         "unbounded_part": (
-            "C10 only: explicit raises are documented exceptions (scan); next/eat under the stream invariant; parse_factors list safety by loop invariants; "
+            "C10 only: explicit raises are documented exceptions (scan); next/eat under the stream invariant; parse_factors and parse_mult list safety by loop invariants; recursion only after a nesting token; "
             "parse_function lookup; progress (every loop iteration / non-descending call consumes a token) - for token lists of ANY length"
             if prop == "C10" else "none (see C10/C11 for totality)"
         ),
     }
-    R.assumptions = ["token-count bound stated above for the enumeration; the unbounded clauses of C10 rest on the stream invariant, the loop invariants of parse_factors and a static progress analysis"]
+    R.assumptions = ["token-count bound stated above for the enumeration; the unbounded clauses of C10 rest on the stream invariant, the loop invariants of parse_factors and parse_mult and a static progress / stack-depth analysis; Python recursion limit not modelled (nesting depth of the input and exponent-tower height must stay below it)"]
     return R.finish()
 
 
